@@ -717,11 +717,19 @@ func runC09(ctx *Ctx) {
 			{cty.EmptyTuple, tup(cty.Bool), cty.List(cty.DynamicPseudoType)},
 			{obj("a", cty.Number), obj("a", cty.String), cty.Map(cty.DynamicPseudoType)},
 			{tup(cty.String, cty.List(cty.Bool), cty.Number), tup(cty.Number, cty.String, cty.List(cty.Bool)), tup(cty.List(cty.Bool), cty.Number, cty.String), cty.String},
+			{tup(tup(cty.Bool)), tup(tup(cty.String)), cty.List(cty.List(cty.String))},
+			{tup(tup(cty.Bool), tup(cty.String)), cty.List(cty.List(cty.String))},
 		} {
 			for _, p := range c09Perms(tys) {
 				c.list(p, 5)
 			}
 		}
+		// a cycle of the preference relation hides the placeholder candidate (C09.sort_cycle_hides_candidate)
+		cyc := []cty.Type{tup(cty.String, cty.List(cty.Bool), cty.Number), tup(cty.Number, cty.String, cty.List(cty.Bool)), tup(cty.List(cty.Bool), cty.Number, cty.String), cty.String, cty.DynamicPseudoType}
+		for k := 0; k < len(cyc); k++ {
+			c.list(append(append([]cty.Type{}, cyc[k:]...), cyc[:k]...), 3)
+		}
+		c.list([]cty.Type{cyc[0], cty.String, cty.DynamicPseudoType}, 3)
 	}
 
 	// (1) enumerated small scope: every list of <= 3 types of the alphabet
